@@ -132,69 +132,7 @@ def run(model: RepoModel, rep, tier: str):
                                   f"constants make the run time unbounded, and quote characters in a string constant change the expression")
     rep.analysed["evaluator call sites"] = n_sites
 
-    # ------------------------------------------------------------------ R2
-    n_re = 0
-    for rel, m in sorted(model.modules.items()):
-        for f in m.all_funcs():
-            for c in model.calls_in(f):
-                cn = call_name(c) or ""
-                if not (cn.startswith("re.") and cn.split(".")[1] in RE_FUNCS and c.args):
-                    continue
-                pat = c.args[0]
-                n_re += 1
-                key = f"{f.ref}::{cn}({norm(pat)[:60]})"
-                if isinstance(pat, ast.Constant):
-                    rep.holds("C08.R2", key, rel, c.lineno, "constant pattern")
-                    continue
-
-                def var_parts(e) -> List[ast.AST]:
-                    if isinstance(e, ast.JoinedStr):
-                        return [v.value for v in e.values if isinstance(v, ast.FormattedValue)]
-                    if isinstance(e, ast.BinOp):
-                        return var_parts(e.left) + var_parts(e.right)
-                    if isinstance(e, ast.Constant):
-                        return []
-                    return [e]
-
-                def is_escaped_or_const(v) -> bool:
-                    if isinstance(v, ast.Call) and call_name(v) == "re.escape":
-                        return True
-                    if isinstance(v, ast.Name):
-                        defs = [n.value for n in walk_no_nested(f.node) if isinstance(n, ast.Assign) and any(isinstance(t, ast.Name) and t.id == v.id for t in n.targets)]
-                        # nested functions see the enclosing function's locals
-                        if not defs:
-                            for g in m.all_funcs():
-                                if any(x is f.node for x in ast.walk(g.node)) and g is not f:
-                                    defs = [n.value for n in walk_no_nested(g.node) if isinstance(n, ast.Assign) and any(isinstance(t, ast.Name) and t.id == v.id for t in n.targets)]
-                        if defs and all(isinstance(d, ast.Constant) or (isinstance(d, ast.Call) and call_name(d) == "re.escape")
-                                        or (isinstance(d, ast.JoinedStr) and all(is_escaped_or_const(x.value) for x in d.values if isinstance(x, ast.FormattedValue)))
-                                        for d in defs):
-                            return True
-                        # loop variable over a constant table of lian itself
-                        for n in ast.walk(f.node):
-                            if isinstance(n, (ast.For, ast.comprehension)) and isinstance(n.target, ast.Name) and n.target.id == v.id:
-                                it = n.iter
-                                if is_self_attr(it) or (isinstance(it, ast.Name) and it.id.isupper()):
-                                    return True
-                        return False
-                    if isinstance(v, ast.Attribute) and (dotted(v) or "").split(".")[0] in ("config", "constants"):
-                        return True
-                    return False
-
-                vs = var_parts(pat)
-                bad = [v for v in vs if not is_escaped_or_const(v)]
-                if not bad:
-                    rep.holds("C08.R2", key, rel, c.lineno, f"{len(vs)} variable part(s), each a constant of lian or wrapped in re.escape")
-                else:
-                    # where does the unescaped part come from?  parameters fed from settings / rules are configuration, not program text
-                    src = norm(bad[0])
-                    if rel in ("util/loader.py", "externs/extern_system.py"):
-                        rep.info("C08.R2", key, rel, c.lineno, f"pattern part `{src}` comes from a query argument / rule file, not from the analysed program")
-                    else:
-                        rep.violation("C08.R2", key, rel, c.lineno,
-                                      f"{f.ref} builds a regular expression from `{src}` without re.escape: names from the analysed program "
-                                      f"(e.g. containing `.`, `(`, `$`) change what is matched or raise re.error")
-    rep.analysed["regex call sites"] = n_re
+    check_regex_escape(model, rep, "C08.R2")
 
     # ------------------------------------------------------------------ R3
     um = model.module("util/util.py")
@@ -282,6 +220,77 @@ def run(model: RepoModel, rep, tier: str):
                                   f"contains call syntax terminates the whole analysis instead of being treated as data")
     if n_sites < 2:
         raise AnalysisError(f"only {n_sites} strict_eval call site(s) found (common_eval and the state-level folder expected)")
+
+
+def check_regex_escape(model: RepoModel, rep, RID: str, only=None):
+    """Every regular expression built from a variable is escaped (shared by C08.R2 and C03.R6: an unescaped name from the analysed
+    program raises re.error in the language phase).  ``only``: restrict to these module paths."""
+    n_re = 0
+    for rel, m in sorted(model.modules.items()):
+        if only is not None and not any(rel == o or rel.startswith(o) for o in only):
+            continue
+        for f in m.all_funcs():
+            for c in model.calls_in(f):
+                cn = call_name(c) or ""
+                if not (cn.startswith("re.") and cn.split(".")[1] in RE_FUNCS and c.args):
+                    continue
+                pat = c.args[0]
+                n_re += 1
+                key = f"{f.ref}::{cn}({norm(pat)[:60]})"
+                if isinstance(pat, ast.Constant):
+                    rep.holds(RID, key, rel, c.lineno, "constant pattern")
+                    continue
+
+                def var_parts(e) -> List[ast.AST]:
+                    if isinstance(e, ast.JoinedStr):
+                        return [v.value for v in e.values if isinstance(v, ast.FormattedValue)]
+                    if isinstance(e, ast.BinOp):
+                        return var_parts(e.left) + var_parts(e.right)
+                    if isinstance(e, ast.Constant):
+                        return []
+                    return [e]
+
+                def is_escaped_or_const(v) -> bool:
+                    if isinstance(v, ast.Call) and call_name(v) == "re.escape":
+                        return True
+                    if isinstance(v, ast.Name):
+                        defs = [n.value for n in walk_no_nested(f.node) if isinstance(n, ast.Assign) and any(isinstance(t, ast.Name) and t.id == v.id for t in n.targets)]
+                        # nested functions see the enclosing function's locals
+                        if not defs:
+                            for g in m.all_funcs():
+                                if any(x is f.node for x in ast.walk(g.node)) and g is not f:
+                                    defs = [n.value for n in walk_no_nested(g.node) if isinstance(n, ast.Assign) and any(isinstance(t, ast.Name) and t.id == v.id for t in n.targets)]
+                        if defs and all(isinstance(d, ast.Constant) or (isinstance(d, ast.Call) and call_name(d) == "re.escape")
+                                        or (isinstance(d, ast.JoinedStr) and all(is_escaped_or_const(x.value) for x in d.values if isinstance(x, ast.FormattedValue)))
+                                        for d in defs):
+                            return True
+                        # loop variable over a constant table of lian itself
+                        for n in ast.walk(f.node):
+                            if isinstance(n, (ast.For, ast.comprehension)) and isinstance(n.target, ast.Name) and n.target.id == v.id:
+                                it = n.iter
+                                if is_self_attr(it) or (isinstance(it, ast.Name) and it.id.isupper()):
+                                    return True
+                        return False
+                    if isinstance(v, ast.Attribute) and (dotted(v) or "").split(".")[0] in ("config", "constants"):
+                        return True
+                    return False
+
+                vs = var_parts(pat)
+                bad = [v for v in vs if not is_escaped_or_const(v)]
+                if not bad:
+                    rep.holds(RID, key, rel, c.lineno, f"{len(vs)} variable part(s), each a constant of lian or wrapped in re.escape")
+                else:
+                    # where does the unescaped part come from?  parameters fed from settings / rules are configuration, not program text
+                    src = norm(bad[0])
+                    if rel in ("util/loader.py", "externs/extern_system.py"):
+                        rep.info(RID, key, rel, c.lineno, f"pattern part `{src}` comes from a query argument / rule file, not from the analysed program")
+                    else:
+                        rep.violation(RID, key, rel, c.lineno,
+                                      f"{f.ref} builds a regular expression from `{src}` without re.escape: names from the analysed program "
+                                      f"(e.g. containing `.`, `(`, `$`) change what is matched or raise re.error")
+    rep.analysed[f"regex call sites ({RID})"] = n_re
+    return n_re
+
 
 
 SS = "core/stmt_states.py"
